@@ -91,7 +91,33 @@ impl CopatternElaborator {
 
         let expected_view =
             self.expected.unroll_k(tycker)?.subst_env_k(tycker, &self.allocation_env)?;
-        match tycker.type_filled_k(&expected_view)?.to_owned() {
+        // Destructors eliminate a codata type through a `def` seal, which names the type. An
+        // arrow, `forall` or package-dependent arrow behind a seal is not a function classifier
+        // outside its definition, exactly as for `fn`.
+        let kind = tycker.statics.type_kind(self.expected);
+        let written_view = self
+            .expected
+            .subst_env_k(tycker, &self.allocation_env)?
+            .normalize_k(tycker, kind)?;
+        let opened = tycker.type_filled_k(&expected_view)?.to_owned();
+        let behind_a_seal = matches!(
+            opened,
+            ss::Type::Arrow(_) | ss::Type::Forall(_) | ss::Type::PackPi(_)
+        ) && !matches!(
+            tycker.type_filled_k(&written_view)?,
+            ss::Type::Arrow(_) | ss::Type::Forall(_) | ss::Type::PackPi(_)
+        );
+        if behind_a_seal {
+            return tycker.err_k(
+                TyckError::TypeExpected {
+                    expected: "one of `_ -> _`, a package-dependent arrow, or `forall _ . _`"
+                        .to_string(),
+                    found: written_view,
+                },
+                std::panic::Location::caller(),
+            );
+        }
+        match opened {
             | ss::Type::CoData(codata) => self.elaborate_codata_k(tycker, codata),
             | ss::Type::Arrow(ss::Arrow(domain, codomain)) => {
                 self.elaborate_arrow_k(tycker, domain, codomain)
